@@ -15,6 +15,8 @@ Hypotheses (all decidable, `Spec/Effects.lean`):
 * `WfPath p` — a path is not empty and has no trailing slash (what pathlib yields).
 -/
 import ReuseVerif.Lemmas.Effects
+import ReuseVerif.Lemmas.EffectsCmd
+import ReuseVerif.Lemmas.AnnotateE2E
 
 namespace C11
 open Model.Eff Spec.Eff
@@ -297,5 +299,267 @@ example : (annotate exEnv (exArgs ["e.png".toList]) exFsLink).1 "../out/new.txt"
 example : ∀ t ∈ writeSet "a.c".toList, Fs.isLink exFs t = false := by decide
 
 end Examples
+
+/-! ## The composed end-to-end model (`Model/AnnotateE2E.lean`)
+
+`annotateE2E w o fs` is the state machine above run in the environment `envOf w o fs`, whose
+every field is the text-level model: the comment style of a path from the generated tables, the
+header builder `Model.annotateFile` in the style of the *written* path with the information the
+command line asks for, `contains_reuse_info`, the template found below `.reuse/templates/`.  So
+each statement above holds for it as an instance — and "the header cannot be produced" is no
+longer a parameter: `C11_e2e_fails_iff` says what it is at the text level. -/
+
+section E2E
+open Model Model.AE Spec.AE
+
+/-- Click's own refusals (a `--style` / `--copyright-prefix` value outside the choices, a
+    `--license` value that is not an SPDX expression) and every usage error of the command come
+    before any file is touched: exit status 2, tree unchanged. -/
+theorem C11_e2e_usage_first (w : AE.World) (o : Opts) (fs : Fs)
+    (h : clickRejects w o = true ∨ ∃ e, preflight (envOf w o fs) (argsOf o) fs = .error e) :
+    annotateE2E w o fs = (fs, 2) := by
+  unfold annotateE2E
+  split
+  · rfl
+  · rcases h with h | ⟨e, h⟩
+    · contradiction
+    · exact C11_usage_first _ _ _ e h
+
+/-- …and exit status 2 means exactly that. -/
+theorem C11_e2e_exit_two (w : AE.World) (o : Opts) (fs : Fs) :
+    (annotateE2E w o fs).2 = 2 ↔
+      (clickRejects w o = true ∨ ∃ e, preflight (envOf w o fs) (argsOf o) fs = .error e) := by
+  unfold annotateE2E
+  split
+  · rename_i h; simp [h]
+  · rename_i h
+    simp only [h, Bool.false_eq_true, false_or]
+    exact (C11_exit_range _ _ _).2
+
+/-- past click, the composed model *is* the command-level state machine in the composed environment -/
+theorem C11_e2e_run (w : AE.World) (o : Opts) (fs : Fs) (hc : clickRejects w o = false) :
+    annotateE2E w o fs = annotate (envOf w o fs) (argsOf o) fs := by
+  simp [annotateE2E, hc]
+
+/-- **`Fails`, characterised by the text level.**  For the composed model "the header cannot be
+    produced for `p`" is: the loop body does attempt a path `t` (it neither skips the file as
+    unrecognised nor because of `--skip-existing`), and for the text found there either the file
+    is not UTF-8 text or `create_header` refuses (`HeaderRefused`: `CommentCreateError` — the
+    header text holds the terminator of the multi-line style in use, or the old header holds an
+    expression that does not parse — or `MissingReuseInfoError`, the read-back guard of
+    `_create_new_header`), in the style of `t`, with the template and information of the command line. -/
+theorem C11_e2e_fails_iff (w : AE.World) (o : Opts) (fs : Fs) (p : Path)
+    (hnl : ∀ t ∈ writeSet p, Fs.isLink fs t = false) :
+    Fails (envOf w o fs) (argsOf o) fs p ↔
+      ∃ t txt, attempt (envOf w o fs) (argsOf o) fs p = some (t, txt) ∧
+        (w.unreadable t = true ∨ HeaderRefused w o fs t txt) := by
+  rw [C11_fails_iff_builder _ _ _ _ hnl]
+  constructor
+  · rintro ⟨t, txt, e, h1, h2⟩
+    exact ⟨t, txt, h1, (build_error_iff w o fs t txt).mp ⟨e, h2⟩⟩
+  · rintro ⟨t, txt, h1, h2⟩
+    obtain ⟨e, he⟩ := (build_error_iff w o fs t txt).mpr h2
+    exact ⟨t, txt, e, h1, he⟩
+
+/-- A symbolic link at the `.license` position is the one other way to fail (`C11_link_in_the_way_fails`). -/
+theorem C11_e2e_link_fails (w : AE.World) (o : Opts) (fs : Fs) (p : Path)
+    (hs : useSibling (envOf w o fs) (argsOf o) p = true) (hl : Fs.isLink fs (licSuffix p) = true) :
+    Fails (envOf w o fs) (argsOf o) fs p :=
+  C11_link_in_the_way_fails _ _ _ _ hs hl
+
+/-- **Failed ⇒ unchanged, end to end.**  If `create_header` refuses for the path the loop body
+    attempts for `p` (or that file is not UTF-8 text), then after the whole command `p` and
+    `p.license` are exactly what they were — no sibling is left behind. -/
+theorem C11_e2e_failed_unchanged (w : AE.World) (o : Opts) (fs : Fs) (ps : List Path) (p t : Path) (txt : Text)
+    (hc : clickRejects w o = false)
+    (hpre : preflight (envOf w o fs) (argsOf o) fs = .ok ps) (hsep : Separate ps) (hwf : ∀ q ∈ ps, WfPath q)
+    (hp : p ∈ ps) (hnl : ∀ t ∈ writeSet p, Fs.isLink fs t = false)
+    (hatt : attempt (envOf w o fs) (argsOf o) fs p = some (t, txt))
+    (href : w.unreadable t = true ∨ HeaderRefused w o fs t txt) :
+    (annotateE2E w o fs).1 p = fs p ∧ (annotateE2E w o fs).1 (sibling p) = fs (sibling p) := by
+  rw [C11_e2e_run w o fs hc]
+  exact C11_failed_unchanged _ _ _ ps p hpre hsep hwf hp
+    ((C11_e2e_fails_iff w o fs p hnl).mpr ⟨t, txt, hatt, href⟩)
+
+/-- **The others are processed, end to end**: every path of the invocation ends exactly as if the
+    loop body had been run for it alone — in closed form: when the body attempts `t` for `q`, the
+    final tree holds at `t` what the text-level builder returns for the text found there, or, when
+    it refuses, what was there before. -/
+theorem C11_e2e_each_alone (w : AE.World) (o : Opts) (fs : Fs) (ps : List Path) (q t : Path) (txt : Text)
+    (hc : clickRejects w o = false)
+    (hpre : preflight (envOf w o fs) (argsOf o) fs = .ok ps) (hsep : Separate ps) (hwf : ∀ r ∈ ps, WfPath r)
+    (hq : q ∈ ps) (hnl : NoLinkAt fs q)
+    (hatt : attempt (envOf w o fs) (argsOf o) fs q = some (t, txt)) :
+    (annotateE2E w o fs).1 t =
+      match build w o (tmplOf w o fs) t txt with
+      | .ok out => some (.file out)
+      | .error _ => fs t := by
+  rw [C11_e2e_run w o fs hc]
+  have ht : t ∈ claim q := writeSet_sub_claim (hwf q hq) (attempt_mem_writeSet hatt)
+  simp only [annotate, hpre]
+  rw [C11_each_alone _ _ fs ps hsep hwf q hq t ht,
+    step_eq_of_attempt _ _ fs q t txt (hwf q hq) hnl hatt]
+  unfold outcome
+  show (match build w o (tmplOf w o fs) t txt with
+    | .ok out => (Fs.writeFile fs t out, false)
+    | .error _ => (fs, true)).1 t = _
+  cases build w o (tmplOf w o fs) t txt <;> simp [Fs.writeFile]
+
+/-- **Exit status, end to end.**  Without a usage error the status is 1 exactly when for some
+    path of the invocation `create_header` refuses (or the file is not UTF-8 text), 0 otherwise. -/
+theorem C11_e2e_exit (w : AE.World) (o : Opts) (fs : Fs) (ps : List Path)
+    (hc : clickRejects w o = false)
+    (hpre : preflight (envOf w o fs) (argsOf o) fs = .ok ps) (hsep : Separate ps) (hwf : ∀ q ∈ ps, WfPath q)
+    (hnl : ∀ p ∈ ps, ∀ t ∈ writeSet p, Fs.isLink fs t = false) :
+    ((annotateE2E w o fs).2 = 1 ↔ ∃ p ∈ ps, ∃ t txt, attempt (envOf w o fs) (argsOf o) fs p = some (t, txt) ∧
+        (w.unreadable t = true ∨ HeaderRefused w o fs t txt)) ∧
+    ((annotateE2E w o fs).2 = 0 ↔ ∀ p ∈ ps, ∀ t txt, attempt (envOf w o fs) (argsOf o) fs p = some (t, txt) →
+        w.unreadable t = false ∧ ¬ HeaderRefused w o fs t txt) := by
+  rw [C11_e2e_run w o fs hc]
+  obtain ⟨h1, h0⟩ := C11_exit _ _ fs ps hpre hsep hwf
+  constructor
+  · rw [h1]
+    constructor
+    · rintro ⟨p, hp, hf⟩; exact ⟨p, hp, (C11_e2e_fails_iff w o fs p (hnl p hp)).mp hf⟩
+    · rintro ⟨p, hp, hf⟩; exact ⟨p, hp, (C11_e2e_fails_iff w o fs p (hnl p hp)).mpr hf⟩
+  · rw [h0]
+    constructor
+    · intro h p hp t txt hatt
+      have := h p hp
+      rw [C11_e2e_fails_iff w o fs p (hnl p hp)] at this
+      constructor
+      · cases hu : w.unreadable t with
+        | false => rfl
+        | true => exact (this ⟨t, txt, hatt, .inl hu⟩).elim
+      · intro hr; exact this ⟨t, txt, hatt, .inr hr⟩
+    · intro h p hp hf
+      obtain ⟨t, txt, hatt, hr⟩ := (C11_e2e_fails_iff w o fs p (hnl p hp)).mp hf
+      obtain ⟨hu, hnr⟩ := h p hp t txt hatt
+      rcases hr with hr | hr
+      · rw [hu] at hr; cases hr
+      · exact hnr hr
+
+/-- **C15's frame, end to end.**  Whatever is refused or written: a path that is neither a path
+    of the invocation (with `--recursive`: a covered file below a named directory) nor the
+    `.license` sibling of one is left exactly as it was. -/
+theorem C11_e2e_frame (w : AE.World) (ww : Eff.World) (o : Opts) (fs : Fs) (x : Path)
+    (hwf : ∀ p ∈ expand (envOf w o fs) (argsOf o) fs, WfPath p)
+    (hx : x ∉ allowed (envOf w o fs) ww (.annotate (argsOf o)) fs) :
+    (annotateE2E w o fs).1 x = fs x := by
+  unfold annotateE2E
+  split
+  · rfl
+  · exact annotate_frame _ _ fs x hwf hx
+
+/-- On a concrete tree `--recursive` expands to the named files and to covered files of the
+    walk of C03 (`Model.iterFiles`) — so by `C11_e2e_frame` nothing the walk ignores or excludes
+    is touched unless it is named itself. -/
+theorem C11_e2e_recursive_covered (w : AE.World) (wc : WalkCfg) (o : Opts) (tree : Tree) (p : Path)
+    (hr : o.recursive = true)
+    (hp : p ∈ expand (envOf { w with below := belowOf (coveredOf wc tree),
+                                      unreadable := fun p => (rawsOf [] tree).contains p } o (fsOf tree))
+                     (argsOf o) (fsOf tree)) :
+    p ∈ o.paths ∨ p ∈ coveredOf wc tree := by
+  unfold expand at hp
+  simp only [argsOf, hr, if_true, List.mem_flatMap] at hp
+  obtain ⟨d, hd, hpd⟩ := hp
+  split at hpd
+  · simp only [List.mem_cons, List.not_mem_nil, or_false] at hpd; exact .inl (hpd ▸ hd)
+  · right
+    simp only [envOf, belowOf] at hpd
+    split at hpd
+    · exact hpd
+    · exact (List.mem_filter.mp hpd).1
+
+end E2E
+
+section E2EExamples
+open Model Model.AE Spec Spec.AE
+
+/-- the style of the table called `n` -/
+def styleNamed (n : String) : Generated.Style :=
+  (styleByName n).getD ⟨"", "", [], none, [], [], [], [], [], [], [], []⟩
+
+/-! ### non-vacuity for the composed model: `reuse annotate --copyright "Jane */ Doe" --license MIT a.py b.c d.png`
+— `b.c` (multi-line style, the holder contains its terminator) is refused, by the text level -/
+
+def e2eWorld : AE.World where
+  curYear := "2026".toList
+  parses := fun _ => true
+  normLic := id
+  binary := fun p => ".png".toList.isSuffixOf p
+  unreadable := fun _ => false
+  below := fun _ => []
+  renderOf := fun _ _ => []
+
+def e2eOpts : Opts where
+  copyrights := ["Jane */ Doe".toList]
+  licenses := ["MIT".toList]
+  contributors := []
+  years := []
+  excludeYear := false
+  prefixKey := none
+  style := none
+  template := none
+  mergeCopyrights := false
+  single := false
+  multi := false
+  recursive := false
+  noReplace := false
+  forceDot := false
+  fallbackDot := false
+  skipUnrec := false
+  skipExisting := false
+  paths := ["a.py".toList, "b.c".toList, "d.png".toList]
+
+def e2eFs : Fs := Fs.ofList [("a.py".toList, .file "x = 1\n".toList), ("b.c".toList, .file "int x;\n".toList),
+  ("d.png".toList, .file "binary".toList)]
+
+example : clickRejects e2eWorld e2eOpts = false := by decide +kernel
+example : (preflight (envOf e2eWorld e2eOpts e2eFs) (argsOf e2eOpts) e2eFs).toOption = some e2eOpts.paths := by decide +kernel
+example : Separate e2eOpts.paths ∧ ∀ q ∈ e2eOpts.paths, WfPath q := by decide
+example : ∀ t ∈ writeSet "b.c".toList, Fs.isLink e2eFs t = false := by decide +kernel
+example : (requested e2eWorld e2eOpts).cpr = ["SPDX-FileCopyrightText: 2026 Jane */ Doe".toList] := by decide +kernel
+example : attempt (envOf e2eWorld e2eOpts e2eFs) (argsOf e2eOpts) e2eFs "b.c".toList = some ("b.c".toList, "int x;\n".toList) := by
+  decide +kernel
+example : attempt (envOf e2eWorld e2eOpts e2eFs) (argsOf e2eOpts) e2eFs "d.png".toList = some ("d.png.license".toList, []) := by
+  decide +kernel
+/-- `create_header` refuses for `b.c`: `CommentCreateError` -/
+theorem e2e_example_refused : HeaderRefused e2eWorld e2eOpts e2eFs "b.c".toList "int x;\n".toList := by
+  have hname : commentStyleName "b.c".toList = some "CCommentStyle" := by decide +kernel
+  have hsome : (styleByName "CCommentStyle").isSome = true := by decide +kernel
+  obtain ⟨sty, hsty⟩ := Option.isSome_iff_exists.mp hsome
+  have hs : styleFor e2eOpts "b.c".toList = some (styleNamed "CCommentStyle") := by
+    simp only [styleFor, writtenStyle, forced, e2eOpts, Option.bind_none, genStyleOf, hname, Option.bind_some, hsty,
+      Option.orElse, styleNamed, Option.getD_some]
+  refine ⟨_, .commentCreate, hs, ?_⟩
+  have hold : oldHeader (cfgFor e2eWorld e2eOpts e2eFs (styleNamed "CCommentStyle")) (!e2eOpts.noReplace)
+      (workText "int x;\n".toList) = [] := by decide +kernel
+  rw [hold]
+  have : (match createHeader (cfgFor e2eWorld e2eOpts e2eFs (styleNamed "CCommentStyle")) (requested e2eWorld e2eOpts) [] with
+    | .error .commentCreate => true | _ => false) = true := by decide +kernel
+  revert this
+  cases createHeader (cfgFor e2eWorld e2eOpts e2eFs (styleNamed "CCommentStyle")) (requested e2eWorld e2eOpts) [] with
+  | ok t => simp
+  | error e => cases e <;> simp
+
+theorem e2e_example_pre :
+    preflight (envOf e2eWorld e2eOpts e2eFs) (argsOf e2eOpts) e2eFs = .ok e2eOpts.paths := by
+  have hpre : (preflight (envOf e2eWorld e2eOpts e2eFs) (argsOf e2eOpts) e2eFs).toOption = some e2eOpts.paths := by
+    decide +kernel
+  cases h : preflight (envOf e2eWorld e2eOpts e2eFs) (argsOf e2eOpts) e2eFs with
+  | error e => rw [h] at hpre; cases hpre
+  | ok ps => rw [h] at hpre; simp only [Except.toOption, Option.some.injEq] at hpre; rw [hpre]
+
+-- `C11_e2e_failed_unchanged` and `C11_e2e_exit` applied: `b.c` and `b.c.license` are as before, the exit status is 1
+example : (annotateE2E e2eWorld e2eOpts e2eFs).1 "b.c".toList = e2eFs "b.c".toList ∧
+    (annotateE2E e2eWorld e2eOpts e2eFs).1 "b.c.license".toList = e2eFs "b.c.license".toList :=
+  C11_e2e_failed_unchanged e2eWorld e2eOpts e2eFs e2eOpts.paths "b.c".toList "b.c".toList "int x;\n".toList
+    (by decide +kernel) e2e_example_pre (by decide) (by decide) (by decide) (by decide +kernel) (by decide +kernel)
+    (.inr e2e_example_refused)
+example : (annotateE2E e2eWorld e2eOpts e2eFs).2 = 1 :=
+  (C11_e2e_exit e2eWorld e2eOpts e2eFs e2eOpts.paths (by decide +kernel) e2e_example_pre (by decide) (by decide)
+    (by decide +kernel)).1.mpr ⟨"b.c".toList, by decide, "b.c".toList, "int x;\n".toList, by decide +kernel, .inr e2e_example_refused⟩
+end E2EExamples
 
 end C11
